@@ -490,6 +490,14 @@ func (a *Act) binop(x *ssa.BinOp) Val {
 			}
 		}
 		if term != "" {
+			if bits, signed := typeBits(t); !signed && bits < 64 {
+				switch x.Op {
+				case token.ADD, token.SUB, token.MUL, token.SHL:
+					// unsigned arithmetic wraps around (exact Go semantics, no obligation)
+					return mk(app("mod", term, pow2(bits).String()))
+				}
+				return mk(term)
+			}
 			v := mk(term)
 			switch x.Op {
 			case token.ADD, token.SUB, token.MUL, token.SHL, token.QUO:
@@ -547,6 +555,15 @@ func (a *Act) convert(x *ssa.Convert) Val {
 	switch {
 	case from == SortInt && to == SortInt:
 		lo, hi, sized := intRange(t)
+		if bits, signed := typeBits(t); sized && !signed && bits < 64 {
+			// conversion to a small unsigned type wraps (defined behaviour in Go): exact semantics
+			flo, fhi, fs := intRange(x.X.Type())
+			_, _ = flo, fhi
+			if fb, fsg := typeBits(x.X.Type()); fs && !fsg && fb <= bits {
+				return Val{Sort: SortInt, T: t, Term: v.Term}
+			}
+			return Val{Sort: SortInt, T: t, Term: a.vc.define(x.Name(), SortInt, app("mod", v.Term, pow2(bits).String()))}
+		}
 		if sized {
 			// narrowing (or sign-changing) conversions must not lose information
 			flo, fhi, fs := intRange(x.X.Type())
